@@ -19,10 +19,17 @@
   * "Stored score = metric of the stored circuit" is a heap-separation invariant: population circuits are mutated in
     place, so it holds because `update_hof` stores copies and selection deep-copies.  It presupposes that the metric is a
     function of the circuit (forced measurement outcomes); the harness re-evaluates every stored entry.
+  * "All settings": `solve` returns exactly on the well-formed configurations — `solve_returns_on_wellformed_configurations`
+    (`0 < n_hof ≤ n_pop`, finite metric, valid draws) and `hof_larger_than_population_never_returns` — so the theorems with
+    hypothesis `solve … = .ok …` are not vacuous for any such configuration.
+  * Beyond the clauses of the property, the same machinery gives: the hall of fame keeps the best of everything evaluated,
+    ties are ordered by node count, the tournament winner is the first minimum, `adapt_probabilities` always yields a
+    probability vector, `SolverResult.sort_by` is a stable sort of intact rows.
   * Reproducibility: in the model a run *is* a function of the configuration and the consumed draws
     (`run_is_function_of_consumed_draws`).  Independence from the ambient process state (hash order of `set`s) cannot be
     derived for the real transformations; it is the hypothesis of `reproducible_partial`, tested by the harness with
-    different `PYTHONHASHSEED`s, and currently violated by `get_node_exclude_labels` (known finding).
+    different `PYTHONHASHSEED`s (it was violated by `get_node_exclude_labels`, which returned `list(set)` over a set holding
+    `str` and `int` ids — found by this check, fixed in /repo 6f7407b; the witness is kept as a regression test).
 -/
 import GraphiqModel.Proofs.Evo
 namespace Graphiq.C19
@@ -355,8 +362,8 @@ def reproducible_statement {Sig : Type} (P : Sig → Params C D) (cfg : Cfg) (dr
     process state.  Missing for the full statement: that the *real* transformations have this independence — they pick
     `candidates[ind]` from lists whose order must not depend on `set` iteration order; this is tested with different
     `PYTHONHASHSEED`s by the harness (and the candidate order of `_select_possible_*` is compared with the model's list
-    order on every sampled circuit); it currently fails for `remove_op` (`get_node_exclude_labels` returns `list(set)`;
-    known finding `repro:hashseed:candidate-order:remove_op`). -/
+    order on every sampled circuit).  It failed for `remove_op` until /repo 6f7407b (`get_node_exclude_labels` returned
+    `list(set(dag.nodes) - excluded)`); violations are reported as `repro:hashseed:candidate-order:<transformation>`. -/
 theorem reproducible_partial {Sig : Type} (P : Sig → Params C D) (cfg : Cfg) (dr : Draws D) (tp : TransProbs)
     (init : List C) (hindep : ∀ σ σ', P σ = P σ') : reproducible_statement P cfg dr tp init := by
   intro σ σ'
